@@ -222,9 +222,13 @@ def modelPair (ms : Ms) (a b : Pt) (r : Rat) (o : PairOut) : Bool × String :=
     let destOk := !inDom || (match fin? o.bab, fin? o.dab, finPt? o.dest with
       | some brg, some d, some p => isPolar p || ptAgrees ms (modelHavDestination R a brg d) p
       | _, _, _ => false)
-    (scOk && dOk && bOk && destOk,
+    -- a posteriori certificate of the engine's Newton arcsine inside `md` (GeodesyNum.asinCert): with it
+    -- `haversine_distance_engine_close_partial` bounds `md` against the real-number formula
+    let certOk := havCert (a.x, a.y) (b.x, b.y)
+    (scOk && dOk && bOk && destOk && certOk,
      "d " ++ dec12 md ++ " brg " ++ dec12 mb ++ (if scOk then "" else " short-circuit-mismatch") ++
-       (if destOk then "" else " destination-mismatch"))
+       (if destOk then "" else " destination-mismatch") ++
+       (if certOk then "" else " asin-certificate-failed"))
   | _ =>
     -- `calc` is only reached when no short-circuit fires; then the model has nothing exact to say
     let viaCalc : Pt := ⟨0, 0⟩
